@@ -2,6 +2,7 @@ import Jap.Core.Channels
 import Jap.Lemmas.ChannelsText
 import Jap.Lemmas.ChannelsKeys
 import Jap.Lemmas.ChannelsAssign
+import Jap.Lemmas.ChannelsEnc
 /-!
 Channels, decoding: under the hypotheses `Good P S`, decoding the rendering of `S` for any channel gives the
 assignments `asgOf P S`, exactly (command line) or up to a permutation (document order, parser order).
@@ -62,21 +63,24 @@ theorem findDecl_some (segs : List String) : ∀ (ds : List Decl) (d : Decl), fi
       exact ⟨List.mem_cons_of_mem _ this.1, this.2⟩
 
 structure Good (P : Parser) (S : Settings) : Prop where
-  wf : ∀ d ∈ P.decls, wfKey d.key = true ∧ envSafe d.key = true
+  wf : ∀ d ∈ P.decls, wfKey d.key = true ∧ envSafe d.key = true ∧ stripNo (destL d.key) = none
   incomp : P.decls.Pairwise (fun a b => incomparable a.key.segs b.key.segs = true)
   fold : P.decls.Pairwise (fun a b => (foldKey a.key != foldKey b.key) = true)
-  decl : ∀ kv ∈ S, ∃ d, findDecl kv.1.segs P.decls = some d ∧ d.raw = isStrVal kv.2 ∧ safeVal kv.2 = true
+  decl : ∀ kv ∈ S, ∃ d, findDecl kv.1.segs P.decls = some d ∧ kindMatches d.kind kv.2 = true ∧ safeVal kv.2 = true
   distinct : S.Pairwise (fun a b => (a.1 != b.1) = true)
 
 theorem good_of_bool (P : Parser) (S : Settings) (hp : goodParser P = true) (hs : goodSettings P S = true) : Good P S := by
   simp only [goodParser, goodSettings, Bool.and_eq_true, List.all_eq_true, pairwiseB_iff] at hp hs
-  refine ⟨hp.1.1, hp.1.2, hp.2, ?_, hs.2⟩
+  refine ⟨fun d hd => ?_, hp.1.2, hp.2, ?_, hs.2⟩
+  · have := hp.1.1 d hd
+    simp only [Bool.and_eq_true, Option.isNone_iff_eq_none] at this
+    exact ⟨this.1.1, this.1.2, this.2⟩
   intro kv hkv
   have := hs.1 kv hkv
   cases hf : findDecl kv.1.segs P.decls with
   | none => simp [hf] at this
   | some d =>
-    simp only [hf, Bool.and_eq_true, beq_iff_eq] at this
+    simp only [hf, Bool.and_eq_true] at this
     exact ⟨d, rfl, this.1, this.2⟩
 
 theorem wfSeg_noDot {s : String} (h : wfSeg s = true) : noDot s.toList = true := by
@@ -107,20 +111,6 @@ theorem destL_notEq {k : Key} (h : wfKey k = true) : ∀ c ∈ destL k, notEq c 
   simp only [wfSeg, Bool.and_eq_true, List.all_eq_true] at this
   exact (this.2 c hc).2
 
-/-- reading back the text of an option / variable at a position of the right kind -/
-theorem readLeaf_argChars (raw : Bool) (v : Val) (hr : raw = isStrVal v) (hs : safeVal v = true) :
-    readLeaf raw (argChars v) = some v := by
-  subst hr
-  cases v with
-  | sc s =>
-    cases s with
-    | str x => simp [readLeaf, isStrVal, argChars, String.ofList_toList]
-    | int i => simpa [readLeaf, isStrVal, argChars] using loadL_valChars _ hs
-    | bool b => simpa [readLeaf, isStrVal, argChars] using loadL_valChars _ hs
-    | null => simpa [readLeaf, isStrVal, argChars] using loadL_valChars _ hs
-  | list xs => simpa [readLeaf, isStrVal, argChars] using loadL_valChars _ hs
-  | dict kvs => simpa [readLeaf, isStrVal, argChars] using loadL_valChars _ hs
-
 theorem takeWhile_stop' {p : Char → Bool} (w : List Char) (x : Char) (rest : List Char) (hw : ∀ c ∈ w, p c = true) (hx : p x = false) :
     (w ++ x :: rest).takeWhile p = w ∧ (w ++ x :: rest).dropWhile p = x :: rest := by
   rw [List.takeWhile_append_of_pos hw, List.dropWhile_append_of_pos hw]
@@ -130,17 +120,133 @@ def asg1 (P : Parser) (kv : Key × Val) : List SKey × V := (skeys P kv.1.segs, 
 
 theorem asgOf_eq (P : Parser) (S : Settings) : asgOf P S = S.map (asg1 P) := rfl
 
-theorem decodeArg_argTok (P : Parser) (S : Settings) (g : Good P S) (kv : Key × Val) (hkv : kv ∈ S) :
-    decodeArg P (argTok kv) = some (asg1 P kv) := by
-  obtain ⟨d, hf, hraw, hsafe⟩ := g.decl kv hkv
-  obtain ⟨hd, hk⟩ := findDecl_some _ _ _ hf
-  have hwf : wfKey kv.1 = true := by
-    have := (g.wf d hd).1
-    simp only [wfKey, hk] at this ⊢
-    exact this
-  have tw := takeWhile_stop' (p := notEq) (destL kv.1) '=' (argChars kv.2) (destL_notEq hwf) (by decide)
-  simp only [decodeArg, argTok, String.toList_ofList, and_self, if_true, tw.1, tw.2,
-    segsOf_destL kv.1 (wfKey_noDot hwf), hf, readLeaf_argChars d.raw kv.2 hraw hsafe, asg1]
+/-! what the text of a variable / the loaded value of a document gives at a position of the matching kind -/
+
+theorem argChars_nonstr (v : Val) (h : isStrVal v = false) : argChars v = valChars v := by
+  cases v with
+  | sc s => cases s <;> simp_all [argChars, isStrVal]
+  | list xs => rfl
+  | dict kvs => rfl
+  | yesno w => rfl
+
+theorem ynBool_of_word {w : YWord} {b : Bool} (h : boolWord w.word.toList = some b) : ynBool w = b := by
+  simp [ynBool, h]
+
+theorem readElem_ok (er : Bool) (x : Scalar) (hm : scalarIsStr x = er) (hs : safeScalar x = true) :
+    readElem er (argChars (.sc x)) = some x := by
+  subst hm
+  cases x with
+  | str s => simp [readElem, scalarIsStr, argChars, String.ofList_toList]
+  | int i => simp [readElem, scalarIsStr, argChars, valChars, loadL_scalarChars _ hs]
+  | bool b => simp [readElem, scalarIsStr, argChars, valChars, loadL_scalarChars _ hs]
+  | null => simp [readElem, scalarIsStr, argChars, valChars, loadL_scalarChars _ hs]
+  | num t => simp [readElem, scalarIsStr, argChars, valChars, loadL_scalarChars _ hs]
+
+/-- an environment variable read at a position of the matching kind gives the value -/
+theorem readLeafK_envChars (kind : Kind) (v : Val) (hm : kindMatches kind v = true) (hs : safeVal v = true) :
+    (readLeafK kind (envChars kind v)).map enc = some (enc v) := by
+  cases kind with
+  | json =>
+    have hn : isStrVal v = false := by
+      cases v with
+      | sc s => cases s <;> simp_all [kindMatches, isStrVal, scalarIsStr]
+      | list xs => rfl
+      | dict kvs => rfl
+      | yesno w => rfl
+    have hy : norm v = v := by
+      cases v with
+      | yesno w => simp [kindMatches] at hm
+      | sc s => rfl
+      | list xs => rfl
+      | dict kvs => rfl
+    simp only [envChars, readLeafK, argChars_nonstr v hn, loadL_valChars v hs, hy, Option.map_some]
+  | raw =>
+    cases v with
+    | sc s =>
+      cases s with
+      | str x => simp [envChars, readLeafK, argChars, String.ofList_toList]
+      | int i => simp [kindMatches] at hm
+      | bool b => simp [kindMatches] at hm
+      | null => simp [kindMatches] at hm
+      | num t => simp [kindMatches] at hm
+    | list xs => simp [kindMatches] at hm
+    | dict kvs => simp [kindMatches] at hm
+    | yesno w => simp [kindMatches] at hm
+  | yesno n =>
+    cases v with
+    | yesno w =>
+      simp only [kindMatches, Bool.and_eq_true] at hm
+      cases hb : boolWord w.word.toList with
+      | none => simp [hb] at hm
+      | some b => simp [envChars, readLeafK, hb, enc, ynBool_of_word hb]
+    | sc s => simp [kindMatches] at hm
+    | list xs => simp [kindMatches] at hm
+    | dict kvs => simp [kindMatches] at hm
+  | nlist n er =>
+    cases v with
+    | list xs =>
+      have := loadL_valChars (.list xs) hs
+      simp only [norm] at this
+      simp [envChars, readLeafK, this]
+    | sc s => simp [kindMatches] at hm
+    | dict kvs => simp [kindMatches] at hm
+    | yesno w => simp [kindMatches] at hm
+
+/-- the loaded value of a document / the value of an object at a position of the matching kind -/
+theorem coerce_norm (kind : Kind) (v : Val) (hm : kindMatches kind v = true) :
+    (coerce kind (norm v)).map enc = some (enc v) := by
+  cases kind with
+  | yesno n =>
+    cases v with
+    | yesno w => simp [coerce, norm, booleanType, enc]
+    | sc s => simp [kindMatches] at hm
+    | list xs => simp [kindMatches] at hm
+    | dict kvs => simp [kindMatches] at hm
+  | json => simp [coerce, enc_norm]
+  | raw => simp [coerce, enc_norm]
+  | nlist n er => simp [coerce, enc_norm]
+
+/-! the command line -/
+
+theorem key_ext {k k' : Key} (h : k.segs = k'.segs) : k = k' := by
+  cases k; cases k'
+  simp only [Key.segs, List.cons.injEq] at h
+  simp [h.1, h.2]
+
+
+theorem decodeArg_eq (P : Parser) (K text : List Char) (hK : ∀ c ∈ K, notEq c = true) :
+    decodeArg P [String.ofList ('-' :: '-' :: (K ++ '=' :: text))] = decodeOpt P K (some text) [] := by
+  have tw := takeWhile_stop' (p := notEq) K '=' text hK (by decide)
+  simp only [decodeArg, String.toList_ofList, and_self, if_true, tw.1, tw.2, List.isEmpty_nil]
+
+theorem dropWhile_all {p : Char → Bool} : ∀ (l : List Char), (∀ c ∈ l, p c = true) → l.dropWhile p = []
+  | [], _ => rfl
+  | c :: r, h => by
+    simp [h c (by simp), dropWhile_all r (fun x hx => h x (List.mem_cons_of_mem _ hx))]
+
+theorem decodeArg_bare (P : Parser) (K : List Char) (vals : List String) (hK : ∀ c ∈ K, notEq c = true) :
+    decodeArg P (String.ofList ('-' :: '-' :: K) :: vals) = decodeOpt P K none (vals.map String.toList) := by
+  simp only [decodeArg, String.toList_ofList, and_self, if_true, dropWhile_all K hK]
+
+theorem no_notEq (K : List Char) (hK : ∀ c ∈ K, notEq c = true) : ∀ c ∈ 'n' :: 'o' :: '_' :: K, notEq c = true := by
+  intro c hc
+  simp only [List.mem_cons] at hc
+  rcases hc with e | e | e | hc
+  · subst e; decide
+  · subst e; decide
+  · subst e; decide
+  · exact hK c hc
+
+theorem decodeOpt_pos (P : Parser) (k : Key) (d : Decl) (e : Option (List Char)) (vals : List (List Char))
+    (hno : stripNo (destL k) = none) (hf : findDecl (segsOf (destL k)) P.decls = some d) :
+    decodeOpt P (destL k) e vals = (readOpt d.kind false e vals).map (fun v => (skeys P d.key.segs, enc v)) := by
+  simp only [decodeOpt, negTarget, hno, hf]
+
+theorem decodeOpt_neg (P : Parser) (k : Key) (d : Decl) (n : YN) (e : Option (List Char)) (vals : List (List Char))
+    (hf : findDecl (segsOf (destL k)) P.decls = some d) (hk : d.kind = .yesno n) :
+    decodeOpt P ('n' :: 'o' :: '_' :: destL k) e vals
+      = (readOpt (.yesno n) true e vals).map (fun v => (skeys P d.key.segs, enc v)) := by
+  simp only [decodeOpt, negTarget, stripNo, and_self, if_true, hf, hk]
 
 theorem traverse_map {α β γ : Type} (f : β → Option γ) (r : α → β) (g : α → γ) : ∀ l : List α,
     (∀ a ∈ l, f (r a) = some (g a)) → traverse f (l.map r) = some (l.map g)
@@ -148,20 +254,184 @@ theorem traverse_map {α β γ : Type} (f : β → Option γ) (r : α → β) (g
   | a :: t, h => by
     simp [traverse, h a (by simp), traverse_map f r g t (fun x hx => h x (List.mem_cons_of_mem _ hx))]
 
+theorem traverse_elems (er : Bool) : ∀ xs : List Scalar, xs.all (fun x => scalarIsStr x == er) = true → xs.all safeScalar = true →
+    traverse (readElem er) ((xs.map (fun x => String.ofList (argChars (.sc x)))).map String.toList) = some xs := by
+  intro xs hm hs
+  rw [List.map_map]
+  have := traverse_map (readElem er) (String.toList ∘ fun x => String.ofList (argChars (.sc x))) id xs (by
+    intro x hx
+    have h1 := List.all_eq_true.mp hm x hx
+    have h2 := List.all_eq_true.mp hs x hx
+    simp only [Function.comp_def, String.toList_ofList, id]
+    exact readElem_ok er x (by simpa using h1) h2)
+  simpa using this
+
+theorem decodeArg_argGroup (P : Parser) (S : Settings) (g : Good P S) (kv : Key × Val) (hkv : kv ∈ S) :
+    decodeArg P (argGroup (kindOf P kv.1) kv.1 kv.2) = some (asg1 P kv) := by
+  obtain ⟨d, hf, hm, hsafe⟩ := g.decl kv hkv
+  obtain ⟨hd, hk⟩ := findDecl_some _ _ _ hf
+  have hwf : wfKey kv.1 = true := by
+    have := (g.wf d hd).1
+    simp only [wfKey, hk] at this ⊢
+    exact this
+  have hK := destL_notEq hwf
+  have hno : stripNo (destL kv.1) = none := by
+    have := (g.wf d hd).2.2
+    rwa [key_ext hk] at this
+  have hseg := segsOf_destL kv.1 (wfKey_noDot hwf)
+  have hf' : findDecl (segsOf (destL kv.1)) P.decls = some d := by rw [hseg]; exact hf
+  have hkind : kindOf P kv.1 = d.kind := by simp [kindOf, hf]
+  have hkey : skeys P d.key.segs = skeys P kv.1.segs := by rw [hk]
+  rw [hkind]
+  obtain ⟨k, v⟩ := kv
+  simp only at hm hsafe hK hno hf' hkey ⊢
+  cases hkd : d.kind with
+  | json =>
+    rw [hkd] at hm
+    have hn : isStrVal v = false := by
+      cases v with
+      | sc s => cases s <;> simp_all [kindMatches, isStrVal, scalarIsStr]
+      | list xs => rfl
+      | dict kvs => rfl
+      | yesno w => rfl
+    have hy : norm v = v := by
+      cases v with
+      | yesno w => simp [kindMatches] at hm
+      | sc s => rfl
+      | list xs => rfl
+      | dict kvs => rfl
+    have hg : argGroup .json k v = [String.ofList (optChars k ++ '=' :: argChars v)] := by
+      cases v <;> rfl
+    rw [hg]
+    simp only [optChars, List.cons_append]
+    rw [decodeArg_eq P (destL k) (argChars v) hK, decodeOpt_pos P k d _ _ hno hf', hkd]
+    simp only [readOpt, argChars_nonstr v hn, loadL_valChars v hsafe, hy, Option.map_some, asg1, hkey]
+  | raw =>
+    rw [hkd] at hm
+    cases v with
+    | sc s =>
+      cases s with
+      | str x =>
+        simp only [argGroup, optChars, List.cons_append]
+        rw [decodeArg_eq P (destL k) _ hK, decodeOpt_pos P k d _ _ hno hf', hkd]
+        simp [readOpt, argChars, String.ofList_toList, asg1, hkey]
+      | int i => simp [kindMatches] at hm
+      | bool b => simp [kindMatches] at hm
+      | null => simp [kindMatches] at hm
+      | num t => simp [kindMatches] at hm
+    | list xs => simp [kindMatches] at hm
+    | dict kvs => simp [kindMatches] at hm
+    | yesno w => simp [kindMatches] at hm
+  | yesno n =>
+    rw [hkd] at hm
+    cases v with
+    | yesno w =>
+      simp only [kindMatches, Bool.and_eq_true] at hm
+      cases hb : boolWord w.word.toList with
+      | none => simp [hb] at hm
+      | some b =>
+        have hyb := ynBool_of_word hb
+        cases n with
+        | bare =>
+          cases b with
+          | true =>
+            simp only [argGroup, hyb, if_true, optChars]
+            rw [decodeArg_bare P (destL k) [] hK, decodeOpt_pos P k d _ _ hno hf', hkd]
+            simp [readOpt, asg1, enc, hyb, hkey]
+          | false =>
+            simp only [argGroup, hyb, Bool.false_eq_true, if_false, noChars]
+            rw [decodeArg_bare P _ [] (no_notEq _ hK), decodeOpt_neg P k d .bare _ _ hf' hkd]
+            simp [readOpt, asg1, enc, hyb, hkey]
+        | opt =>
+          cases hnw : w.negWord with
+          | none =>
+            simp only [argGroup, hnw, optChars, List.cons_append]
+            rw [decodeArg_eq P (destL k) _ hK, decodeOpt_pos P k d _ _ hno hf', hkd]
+            simp [readOpt, hb, asg1, enc, hyb, hkey]
+          | some nw =>
+            have h2 : boolWord nw.toList = some (!b) := by
+              have := hm.2; simp only [hnw, hyb, beq_iff_eq] at this; exact this
+            have hde := decodeArg_eq P ('n' :: 'o' :: '_' :: destL k) nw.toList (no_notEq _ hK)
+            simp only [List.cons_append] at hde
+            simp only [argGroup, hnw, noChars, List.cons_append]
+            rw [hde, decodeOpt_neg P k d .opt _ _ hf' hkd]
+            cases b <;> simp [readOpt, h2, asg1, enc, hyb, hkey]
+        | one =>
+          cases hnw : w.negWord with
+          | none =>
+            simp only [argGroup, hnw, optChars, List.cons_append]
+            rw [decodeArg_eq P (destL k) _ hK, decodeOpt_pos P k d _ _ hno hf', hkd]
+            simp [readOpt, hb, asg1, enc, hyb, hkey]
+          | some nw =>
+            have h2 : boolWord nw.toList = some (!b) := by
+              have := hm.2; simp only [hnw, hyb, beq_iff_eq] at this; exact this
+            have hde := decodeArg_eq P ('n' :: 'o' :: '_' :: destL k) nw.toList (no_notEq _ hK)
+            simp only [List.cons_append] at hde
+            simp only [argGroup, hnw, noChars, List.cons_append]
+            rw [hde, decodeOpt_neg P k d .one _ _ hf' hkd]
+            cases b <;> simp [readOpt, h2, asg1, enc, hyb, hkey]
+    | sc s => simp [kindMatches] at hm
+    | list xs => simp [kindMatches] at hm
+    | dict kvs => simp [kindMatches] at hm
+  | nlist n er =>
+    rw [hkd] at hm
+    cases v with
+    | list xs =>
+      simp only [kindMatches, Bool.and_eq_true] at hm
+      have hs' : xs.all safeScalar = true := hsafe
+      cases xs with
+      | nil =>
+        simp only [argGroup, optChars, List.map_nil]
+        rw [decodeArg_bare P (destL k) [] hK, decodeOpt_pos P k d _ _ hno hf', hkd]
+        have := hm.1
+        simp only [List.length_nil] at this
+        simp [readOpt, this, traverse, asg1, hkey]
+      | cons x r =>
+        cases r with
+        | nil =>
+          have hx : scalarIsStr x = er := by simpa using hm.2
+          have hsx : safeScalar x = true := by simpa using hs'
+          simp only [argGroup, optChars, List.cons_append]
+          rw [decodeArg_eq P (destL k) _ hK, decodeOpt_pos P k d _ _ hno hf', hkd]
+          have := hm.1
+          simp only [List.length_cons, List.length_nil] at this
+          simp [readOpt, this, readElem_ok er x hx hsx, asg1, hkey]
+        | cons y r' =>
+          have hg : argGroup (.nlist n er) k (.list (x :: y :: r'))
+              = String.ofList (optChars k) :: (x :: y :: r').map (fun x => String.ofList (argChars (.sc x))) := rfl
+          rw [hg]
+          simp only [optChars]
+          rw [decodeArg_bare P (destL k) _ hK, decodeOpt_pos P k d _ _ hno hf', hkd]
+          have hl : n.admits ((x :: y :: r').map (fun x => String.ofList (argChars (.sc x)))).length = true := by
+            simpa using hm.1
+          simp only [readOpt, List.length_map] at hl ⊢
+          simp only [hl, if_true, traverse_elems er (x :: y :: r') hm.2 hs', Option.map_some, asg1, hkey]
+    | sc s => simp [kindMatches] at hm
+    | dict kvs => simp [kindMatches] at hm
+    | yesno w => simp [kindMatches] at hm
+
 theorem decode_argv (P : Parser) (S : Settings) (g : Good P S) : decode P (render P .argv S) = some (asgOf P S) := by
   simp only [decode, render]
-  exact traverse_map _ _ _ S (fun kv hkv => decodeArg_argTok P S g kv hkv)
+  exact traverse_map _ _ _ S (fun kv hkv => decodeArg_argGroup P S g kv hkv)
 
 /-- a leaf of a document: dotted spelling or segments, text -/
 theorem decodeLeafText_ok (P : Parser) (S : Settings) (g : Good P S) (kv : Key × Val) (hkv : kv ∈ S) :
     decodeLeafText P (kv.1.segs, textOf kv.2) = some (asg1 P kv) := by
-  obtain ⟨d, hf, _, hsafe⟩ := g.decl kv hkv
+  obtain ⟨d, hf, hm, hsafe⟩ := g.decl kv hkv
+  have := coerce_norm d.kind kv.2 hm
   simp only [decodeLeafText, hf, textOf, String.toList_ofList, loadL_valChars kv.2 hsafe, asg1]
+  cases hc : coerce d.kind (norm kv.2) with
+  | none => simp [hc] at this
+  | some v' => simp only [hc, Option.map_some, Option.some.injEq] at this ⊢; rw [this]
 
 theorem decodeLeafVal_ok (P : Parser) (S : Settings) (g : Good P S) (kv : Key × Val) (hkv : kv ∈ S) :
     decodeLeafVal P (kv.1.segs, kv.2) = some (asg1 P kv) := by
-  obtain ⟨d, hf, _, _⟩ := g.decl kv hkv
+  obtain ⟨d, hf, hm, _⟩ := g.decl kv hkv
+  have := coerce_norm d.kind kv.2 hm
   simp only [decodeLeafVal, hf, asg1]
+  cases hc : coerce d.kind (norm kv.2) with
+  | none => simp [hc] at this
+  | some v' => simp only [hc, Option.map_some, Option.some.injEq] at this ⊢; rw [this]
 
 theorem segs_of_dest (P : Parser) (S : Settings) (g : Good P S) (kv : Key × Val) (hkv : kv ∈ S) :
     segsOf (dest kv.1).toList = kv.1.segs := by
@@ -241,11 +511,6 @@ theorem valOf_of_mem : ∀ (S : Settings), S.Pairwise (fun a b => (a.1 != b.1) =
     · have : x.1 ≠ kv.1 := by simpa using hd'.1 kv h'
       simp [valOf, this, valOf_of_mem r hd'.2 kv h']
 
-theorem key_ext {k k' : Key} (h : k.segs = k'.segs) : k = k' := by
-  cases k; cases k'
-  simp only [Key.segs, List.cons.injEq] at h
-  simp [h.1, h.2]
-
 theorem mark_name_inj (clash : List String) {a b : String} (h : mark clash a = mark clash b) : a = b :=
   congrArg SKey.name h
 
@@ -275,7 +540,7 @@ theorem envVar_decl_inj (P : Parser) (S : Settings) (g : Good P S) {d d' : Decl}
   have hl : envVarL P.pfx d.key = envVarL P.pfx d'.key := by
     have := congrArg String.toList h
     simpa [envVar, String.toList_ofList] using this
-  have hf := envVarL_inj P.pfx d.key d'.key (g.wf d hd).2 (g.wf d' hd').2 hl
+  have hf := envVarL_inj P.pfx d.key d'.key (g.wf d hd).2.1 (g.wf d' hd').2.1 hl
   rcases pairwise_mem (R := fun a b : Decl => (foldKey a.key != foldKey b.key) = true)
     (fun {a b} hab => by
       simp only [bne_iff_ne, ne_eq] at hab ⊢
@@ -284,18 +549,21 @@ theorem envVar_decl_inj (P : Parser) (S : Settings) (g : Good P S) {d d' : Decl}
   · simp [hf] at r
 
 theorem decl_of_setting (P : Parser) (S : Settings) (g : Good P S) (kv : Key × Val) (hkv : kv ∈ S) :
-    ∃ d ∈ P.decls, d.key = kv.1 ∧ d.raw = isStrVal kv.2 ∧ safeVal kv.2 = true := by
+    ∃ d ∈ P.decls, d.key = kv.1 ∧ kindMatches d.kind kv.2 = true ∧ safeVal kv.2 = true ∧ kindOf P kv.1 = d.kind := by
   obtain ⟨d, hf, hraw, hsafe⟩ := g.decl kv hkv
   obtain ⟨hd, hk⟩ := findDecl_some _ _ _ hf
-  exact ⟨d, hd, key_ext hk, hraw, hsafe⟩
+  exact ⟨d, hd, key_ext hk, hraw, hsafe, by simp [kindOf, hf]⟩
+
+/-- the text of the variable for key `k` -/
+def envT (P : Parser) (k : Key) (v : Val) : String := String.ofList (envChars (kindOf P k) v)
 
 theorem lookupS_env (P : Parser) (S : Settings) (g : Good P S) (d : Decl) (hd : d ∈ P.decls) :
     ∀ S' : Settings, (∀ kv ∈ S', kv ∈ S) →
-    lookupS (envVar P.pfx d.key) (S'.map fun kv => (envVar P.pfx kv.1, argText kv.2)) = (valOf d.key S').map argText
+    lookupS (envVar P.pfx d.key) (S'.map fun kv => (envVar P.pfx kv.1, envT P kv.1 kv.2)) = (valOf d.key S').map (envT P d.key)
   | [], _ => rfl
   | kv :: r, h => by
     have ih := lookupS_env P S g d hd r (fun x hx => h x (List.mem_cons_of_mem _ hx))
-    obtain ⟨d', hd', hk', _, _⟩ := decl_of_setting P S g kv (h kv (by simp))
+    obtain ⟨d', hd', hk', _, _, _⟩ := decl_of_setting P S g kv (h kv (by simp))
     by_cases e : kv.1 = d.key
     · simp [lookupS, valOf, e]
     · have : envVar P.pfx kv.1 ≠ envVar P.pfx d.key := by
@@ -309,7 +577,7 @@ def envAsg (P : Parser) (S : Settings) (d : Decl) : Option (List SKey × V) :=
 
 theorem decodeEnv_eq (P : Parser) (S : Settings) (g : Good P S) :
     ∀ ds : List Decl, (∀ d ∈ ds, d ∈ P.decls) →
-    decodeEnv P (S.map fun kv => (envVar P.pfx kv.1, argText kv.2)) ds = some (ds.filterMap (envAsg P S))
+    decodeEnv P (S.map fun kv => (envVar P.pfx kv.1, envT P kv.1 kv.2)) ds = some (ds.filterMap (envAsg P S))
   | [], _ => rfl
   | d :: r, h => by
     have hd := h d (by simp)
@@ -319,11 +587,19 @@ theorem decodeEnv_eq (P : Parser) (S : Settings) (g : Good P S) :
     | none => simp only [Option.map_none]; exact ih
     | some v =>
       have hmem := valOf_mem d.key S v hv
-      obtain ⟨d', hd', hk', hraw, hsafe⟩ := decl_of_setting P S g (d.key, v) hmem
+      obtain ⟨d', hd', hk', hraw, hsafe, hkind⟩ := decl_of_setting P S g (d.key, v) hmem
       have : d' = d := decl_unique P S g hd' hd (by rw [hk'])
       subst this
-      have ht : (argText v).toList = argChars v := by simp [argText, String.toList_ofList]
-      simp only [Option.map_some, ht, readLeaf_argChars d'.raw v hraw hsafe, ih, asg1]
+      have ht : (envT P d'.key v).toList = envChars d'.kind v := by
+        simp only at hkind
+        simp [envT, String.toList_ofList, hkind]
+      have hr := readLeafK_envChars d'.kind v hraw hsafe
+      simp only [Option.map_some, ht]
+      cases hv' : readLeafK d'.kind (envChars d'.kind v) with
+      | none => simp [hv'] at hr
+      | some v' =>
+        simp only [hv', Option.map_some, Option.some.injEq] at hr
+        simp only [ih, asg1, hr]
 
 theorem envAsg_perm (P : Parser) (S : Settings) (g : Good P S) : (P.decls.filterMap (envAsg P S)).Perm (asgOf P S) := by
   rw [asgOf_eq]
@@ -334,7 +610,7 @@ theorem envAsg_perm (P : Parser) (S : Settings) (g : Good P S) : (P.decls.filter
     · rintro ⟨d, _, v, hv, rfl⟩
       exact ⟨(d.key, v), valOf_mem d.key S v hv, rfl⟩
     · rintro ⟨kv, hkv, rfl⟩
-      obtain ⟨d, hd, hk, _, _⟩ := decl_of_setting P S g kv hkv
+      obtain ⟨d, hd, hk, _, _, _⟩ := decl_of_setting P S g kv hkv
       exact ⟨d, hd, kv.2, by rw [hk]; exact valOf_of_mem S g.distinct kv hkv, by rw [hk]⟩
   · refine List.Pairwise.filterMap (envAsg P S) ?_ g.incomp
     intro a a' hr b hb b' hb' e
@@ -352,7 +628,9 @@ theorem envAsg_perm (P : Parser) (S : Settings) (g : Good P S) : (P.decls.filter
 
 theorem decode_env (P : Parser) (S : Settings) (g : Good P S) :
     ∃ A, decode P (render P .env S) = some A ∧ A.Perm (asgOf P S) := by
-  simp only [decode, render, decodeEnv_eq P S g P.decls (fun _ h => h), Option.map_some]
+  have hde := decodeEnv_eq P S g P.decls (fun _ h => h)
+  simp only [envT] at hde
+  simp only [decode, render, hde, Option.map_some]
   exact ⟨_, rfl, (docOrder_perm _).trans (envAsg_perm P S g)⟩
 
 /-! ### assembling: every channel decodes to a permutation of the settings, whose keys diverge pairwise -/
@@ -361,8 +639,8 @@ theorem divAsg_asgOf (P : Parser) (S : Settings) (g : Good P S) : DivAsg (asgOf 
   rw [asgOf_eq]
   refine List.Pairwise.map (asg1 P) ?_ (List.Pairwise.and_mem.mp g.distinct)
   intro a b ⟨ha, hb, hab⟩
-  obtain ⟨d, hd, hk, _, _⟩ := decl_of_setting P S g a ha
-  obtain ⟨d', hd', hk', _, _⟩ := decl_of_setting P S g b hb
+  obtain ⟨d, hd, hk, _, _, _⟩ := decl_of_setting P S g a ha
+  obtain ⟨d', hd', hk', _, _, _⟩ := decl_of_setting P S g b hb
   have hne : d ≠ d' := by
     intro e; subst e
     rw [hk] at hk'
